@@ -131,9 +131,14 @@ def m_ptw(f, v, args, jnp=None):
     if f == "tan":
         return jnp.sin(v)/jnp.cos(v)
     if f == "sinc":      # sin(pi x)/(pi x), 1 at 0
-        z = v == 0
-        s = jnp.where(z, 1., jnp.pi*v)
-        return jnp.where(z, 1., jnp.sin(s)/s)
+        # Taylor branch near 0: autodiff of sin(s)/s cancels catastrophically for tiny s != 0
+        # (cos(s)/s - sin(s)/s^2), which once produced an O(1) oracle error at s ~ 1e-16
+        s = jnp.pi*v
+        small = jnp.abs(s) < 0.05
+        s2 = jnp.where(small, s, 0.)**2
+        ser = 1. - s2/6.*(1. - s2/20.*(1. - s2/42.*(1. - s2/72.)))
+        sb = jnp.where(small, 1., s)
+        return jnp.where(small, ser, jnp.sin(sb)/sb)
     if f == "exp":
         return jnp.exp(v)
     if f == "expm1":
